@@ -165,6 +165,7 @@ func run(c *vf.Ctx) {
 			}
 		}
 	})
+	e.danglingHead(ggFile)
 	for _, s := range []*lab.Server{ggGit, ggHTTP, gitH} {
 		for _, l := range s.ErrorLog() {
 			if strings.Contains(l, "PANIC") {
@@ -354,6 +355,37 @@ func (e *env) build(i int) *scenario {
 	}
 	c.Count("reference_exchanges", 1)
 	return sc
+}
+
+// danglingHead records (observation only) what go-git and git do when cloning a
+// served repository whose HEAD names a branch that does not exist.
+func (e *env) danglingHead(srv *lab.Server) {
+	c := e.c
+	dir := filepath.Join(e.root, "dangling.git")
+	if err := e.g.Init(dir, true, "sha1"); err != nil {
+		return
+	}
+	h := gen.RandomHistory(c.Rand("dangling"), gen.HistOpts{N: 3, Files: 2, Path: gen.PathOpts{Depth: 1}})
+	if _, err := e.g.Import(dir, h); err != nil {
+		return
+	}
+	e.g.Run(dir, "symbolic-ref", "HEAD", "refs/heads/does-not-exist")
+	gdir := filepath.Join(e.work, "dangling-git")
+	gr := lab.GitClient(e.g, 2, e.base).Run(e.work, "clone", "-q", "-n", e.ref.URL("dangling.git"), gdir)
+	ggdir := filepath.Join(e.work, "dangling-gogit")
+	var err error
+	vf.Catch(func() {
+		_, err = git.PlainClone(ggdir, &git.CloneOptions{URL: srv.URL("dangling.git"), NoCheckout: true})
+	})
+	obs := fmt.Sprintf("git clone: exit %d (%s); go-git PlainClone: err=%v", gr.Code, strings.TrimSpace(string(gr.Err)), err)
+	if err == nil {
+		refs := lab.RawRefs(lab.GitDir(ggdir))
+		obs += fmt.Sprintf(" refs=%d", len(refs))
+	}
+	c.Extra("obs_clone_of_repository_with_dangling_HEAD", obs)
+	os.RemoveAll(dir)
+	os.RemoveAll(gdir)
+	os.RemoveAll(ggdir)
 }
 
 func longGit(scratch string) *gitx.Git {
